@@ -41,6 +41,7 @@ type Params struct {
 	Reward                                   uint64
 	GenSC, GenSF                             []AbsOut
 	TaxForkH, ProofForkH                     uint64 // 0: post-fork rules from genesis
+	Keyring                                  *Keyring `json:"-"` // optional: a keyring with custom addresses
 }
 
 // AbsOut is [val, addr].
@@ -177,11 +178,15 @@ type Keyring struct {
 	sk    map[string]types.PrivateKey
 	mu    sync.Mutex
 	names map[types.Address]string
+	// Custom lets a check name further addresses: a v2 policy, or v1 unlock conditions (which are also spendable
+	// by v2 inputs that reveal them as a policy).
+	Custom   map[string]types.SpendPolicy
+	CustomUC map[string]types.UnlockConditions
 }
 
 // NewKeyring derives deterministic keys for the given names.
 func NewKeyring() *Keyring {
-	k := &Keyring{sk: map[string]types.PrivateKey{}, names: map[types.Address]string{}}
+	k := &Keyring{sk: map[string]types.PrivateKey{}, names: map[types.Address]string{}, Custom: map[string]types.SpendPolicy{}, CustomUC: map[string]types.UnlockConditions{}}
 	for i, n := range []string{"A", "B", "C", "F", "M", "R", "H", "X", "Y"} {
 		seed := make([]byte, 32)
 		seed[0] = byte(i + 1)
@@ -229,6 +234,9 @@ func keyName(n string) string {
 
 // UC returns the v1 unlock conditions of an address name.
 func (k *Keyring) UC(n string) types.UnlockConditions {
+	if uc, ok := k.CustomUC[n]; ok {
+		return uc
+	}
 	if kind, v, ok := lockOf(n); ok && kind == 'T' {
 		uc := types.StandardUnlockConditions(k.PK("A"))
 		uc.Timelock = v
@@ -253,6 +261,9 @@ func (k *Keyring) Addr(n string) types.Address {
 
 // Policy returns the v2 spend policy of an address name.
 func (k *Keyring) Policy(n string) types.SpendPolicy {
+	if p, ok := k.Custom[n]; ok {
+		return p
+	}
 	if kind, v, ok := lockOf(n); ok {
 		switch kind {
 		case 'P':
